@@ -62,3 +62,6 @@ Proof.
   induction l1 as [|a r IH]; simpl; intros ND; [constructor|].
   inversion ND as [|? ? Hn ND']; subst. constructor; auto. intros H; apply Hn, in_or_app; auto.
 Qed.
+
+Lemma NoDup_app_r {A} (l1 l2 : list A) : NoDup (l1 ++ l2) -> NoDup l2.
+Proof. induction l1 as [|a r IH]; simpl; intros ND; auto. inversion ND; auto. Qed.
